@@ -13,7 +13,11 @@ from ..paths import fmt, ptr_parts, strip_casts
 from . import fib, C02
 
 
+NOW_BY_ARG = []        # (argument index, path id, loc): get_next_wakeup returns now because its caller said so
+
+
 def wakeup_paths(chk, m, K, Kconst):
+    del NOW_BY_ARG[:]
     fn, ps = fib.fn_paths(m, "get_next_wakeup")
     chk.note_fn(fn)
     now = ("ld", K.kptr("now"), 4)
@@ -30,6 +34,45 @@ def wakeup_paths(chk, m, K, Kconst):
         is_head = r[0] == "ld" and ptr_parts(r[1])[1] in (K.fibre["duetime"][0] - K.link_off, K.fibre["duetime"][0])
         if is_now:
             chk.ob("U1.value-set", pid, True, "returns now", p.ret_inst.loc, fn.name)
+            # 'now' means "do not sleep": it needs a reason - a queued request, a queued fibre, or a fibre that yielded IN THIS PASS.
+            # kernel.state alone is not one: it keeps its value over idle passes and the zero-initialised state reads YIELDED
+            yielded = K.enums.get("FIBRE_STATE_YIELDED")
+            why = None
+            if facts["atomic"] is False:
+                why = "the atomic run queue holds a request"
+            elif facts["runq"] is False:
+                why = "the run queue is not empty"
+            else:
+                st = cur = None
+                argev = None
+                for c, taken, inst in p.conds:
+                    cc = strip_casts(c)
+                    if cc[0] == "icmp" and cc[1] in ("eq", "ne") and cc[3][0] == "c" and cc[3][2] == yielded and \
+                            strip_casts(cc[2])[0] == "ld" and strip_casts(cc[2])[1] == K.kptr("state"):
+                        st = (cc[1] == "eq") == bool(taken)
+                    if cc[0] == "icmp" and cc[1] in ("eq", "ne") and ("null",) in (cc[2], cc[3]):
+                        o = strip_casts(cc[2] if cc[3] == ("null",) else cc[3])
+                        if o[0] == "ld" and o[1] == K.kptr("current"):
+                            cur = (cc[1] == "ne") == bool(taken)
+                    args = [x for x in paths.subexprs(c) if x[0] == "arg"]
+                    if len(args) == 1 and not [x for x in paths.subexprs(c) if x[0] in ("ld", "call")]:
+                        try:
+                            t1 = paths.cond_holds((c, taken, inst), {args[0]: 1})
+                            t0 = paths.cond_holds((c, taken, inst), {args[0]: 0})
+                            if t1 and not t0:
+                                argev = args[0][1]
+                        except paths.NoValue:
+                            pass
+                if st and cur:
+                    why = "a fibre was dispatched in this pass (kernel.current != NULL) and yielded"
+                elif argev is not None:
+                    NOW_BY_ARG.append((argev, pid, p.ret_inst.loc))
+                    continue
+            chk.ob("U2.now-needs-runnable", pid, why is not None,
+                   "`now` is returned because %s" % why if why else
+                   "`now` is returned with no evidence on the path that anything is runnable (no queued request, no queued fibre, no fibre "
+                   "that yielded in this pass; kernel.state by itself is stale on an idle pass and reads YIELDED in the zero-initialised "
+                   "kernel): the main loop spins instead of sleeping until the earliest due time", p.ret_inst.loc, fn.name)
             continue
         if is_unbounded:
             kval = r[4][2]
@@ -129,6 +172,15 @@ def run(chk):
         wk = [k for k, e in cs if e.callee == "get_next_wakeup"]
         rr = strip_casts(p.ret)
         if rr[0] == "call" and rr[1] == "get_next_wakeup":
+            for ai, wpid, wloc in NOW_BY_ARG:
+                # the caller's word is good when it is "the fibre dispatched on this path returned YIELDED" (or false)
+                a = strip_casts(rr[2][ai]) if ai < len(rr[2]) else None
+                good = a is not None and ((a[0] == "c" and a[2] == 0) or
+                                          (a[0] == "icmp" and a[1] == "eq" and a[3][0] == "c" and a[3][2] == yielded and disp and
+                                           strip_casts(a[2])[0] == "call" and not isinstance(strip_casts(a[2])[1], str)))
+                chk.ob("U2.now-needs-runnable", pid + " / " + wpid, good,
+                       "get_next_wakeup is told to return `now` only when the fibre dispatched on this path yielded (argument %d = %s)"
+                       % (ai, fmt(a)[:50] if a is not None else "?"), p.ret_inst.loc, fn.name)
             ok = bool(wk) and (not disp or wk[0] > disp[-1]) and wk[0] == max(k for k, e in cs)
             chk.ob("U3.fresh-after-dispatch", pid, ok,
                    "the wake-up time is computed after the dispatch and is the last thing the pass does", p.ret_inst.loc, fn.name)
